@@ -18,14 +18,32 @@ var c10Argv = &ArgvCfg{MaxItems: 2, WOpt: 40, WCluster: 6, WCmd: 3, WPlain: 35, 
 
 var _ = Register("C10", func() interface{} { return new(ParseCase) }, func(c interface{}) string { return c10Oracle(c.(*ParseCase)) })
 
+var c10ArgvUnknown = func() *ArgvCfg { a := *c10Argv; a.WUnknown = 14; return &a }()
+
+func genC10(t *rapid.T) *ParseCase {
+	if rapid.IntRange(0, 3).Draw(t, "withHandler") != 0 {
+		return genParseCase(t, c10Decl, c10Argv)
+	}
+	// an UnknownOptionHandler that keeps the arguments as they are: unknown
+	// options between positional tokens must not disturb the binding
+	c := genParseCase(t, c10Decl, c10ArgvUnknown)
+	if !c.D.Has(flags.IgnoreUnknown) {
+		c.Handler = &HandlerSpec{Mode: "same"}
+	}
+	return c
+}
+
 func c10Oracle(c *ParseCase) string {
 	st := S("C10")
-	ref := Ref(&RefInput{D: c.D, Args: c.Args})
+	ref := Ref(&RefInput{D: c.D, Args: c.Args, Handler: c.Handler})
 	if ref.Undetermined != "" {
 		st.Label("skip: " + ref.Undetermined)
 		return ""
 	}
-	rr := RunReal(c.D, c.Args, nil, nil)
+	rr := RunReal(c.D, c.Args, nil, &RealCfg{Handler: c.Handler})
+	if c.Handler != nil && len(ref.Handler) > 0 {
+		st.Label("unknown-option handler called between positionals")
+	}
 	if rr.Panic != "" || rr.SetupErr != nil {
 		st.Label("skip: panic or setup error")
 		return ""
@@ -88,6 +106,6 @@ func c10Oracle(c *ParseCase) string {
 }
 
 func TestC10(t *testing.T) {
-	S("C10").Rule = "positional layouts (0-3 fields of string/int/float64/custom type + optional trailing slice) on the parser and on commands x argv interleaving typed plain tokens with options, clusters and the terminator followed by option-looking tokens; oracle: R binding (i-th plain token -> i-th field converted, slice absorbs the rest, overflow -> remaining args). non-trivial: >= 2 tokens bound and (option between two positionals | binding after '--' | overflow); distinct by (declaration signature, argv)"
-	runProp(t, "C10", func(t *rapid.T) *ParseCase { return genParseCase(t, c10Decl, c10Argv) }, c10Oracle)
+	S("C10").Rule = "positional layouts (0-3 fields of string/int/float64/custom type + optional trailing slice) on the parser and on commands x argv interleaving typed plain tokens with options, clusters and the terminator followed by option-looking tokens; (in a quarter of the cases unknown options, handled by an UnknownOptionHandler or ignored, in between); oracle: R binding (i-th plain token -> i-th field converted, slice absorbs the rest, overflow -> remaining args). non-trivial: >= 2 tokens bound and (option between two positionals | binding after '--' | overflow); distinct by (declaration signature, argv)"
+	runProp(t, "C10", genC10, c10Oracle)
 }
